@@ -186,7 +186,79 @@ def c02_t(run, fx):
             run.ok(rule, "%s covers all %d Indic tags" % (path, len(indic)))
 
 
+def c02_s(run, fx):
+    rule = "C02-s"
+    run.rule(rule, "lookup cache sentinel: new_layout_cache creates cached_lookups with one (empty) list, so the index 0 that "
+                   "get_lookups_cache_index returns for a script/language the font lacks is a valid element; the list is only ever pushed to")
+    b = fx.body("layout::new_layout_cache")
+    if b is None:
+        return run.anchor_missing(rule, "layout::new_layout_cache")
+    prov = sym.Prov(b)
+    seeded = False
+    for bi, blk in enumerate(b.blocks):
+        for s_ in blk["s"]:
+            if s_["k"] == "assign" and s_["rv"]["k"] == "agg" and s_["rv"].get("adt") == "layout::LayoutCacheData":
+                f = dict(zip(s_["rv"]["fnames"], s_["rv"]["fields"]))
+                t = prov.op(f["cached_lookups"])
+                for x in sym.walk(t):
+                    # vec![Vec::new()]  ->  box [..; 1] into_vec   or   from_elem(_, 1)
+                    if x[0] == "agg" and x[1] == "array" and len(x[3]) >= 1:
+                        seeded = True
+                    if x[0] == "call" and (x[1] or "").endswith("from_elem") and len(x[2]) == 2 and sym.strip(x[2][1])[0] == "c" and (sym.strip(x[2][1])[1] or 0) >= 1:
+                        seeded = True
+                    if x[0] == "repeat":
+                        seeded = True
+    if not seeded:
+        # vec![x] expands to a boxed [T; 1] that is turned into a Vec: follow the definition chain of the
+        # field operand and look at the types of the locals on it
+        import re as _re
+        for bi, blk in enumerate(b.blocks):
+            for s_ in blk["s"]:
+                if s_["k"] == "assign" and s_["rv"]["k"] == "agg" and s_["rv"].get("adt") == "layout::LayoutCacheData":
+                    f = dict(zip(s_["rv"]["fnames"], s_["rv"]["fields"]))
+                    work = [f["cached_lookups"]["p"]["l"]] if f["cached_lookups"]["k"] in ("copy", "move") else []
+                    seen = set()
+                    while work:
+                        l = work.pop()
+                        if l in seen or len(seen) > 12:
+                            continue
+                        seen.add(l)
+                        m = _re.search(r"\[.*; (\d+)\]", b.local_ty(l))
+                        if m and int(m.group(1)) >= 1:
+                            seeded = True
+                        for d in b.defs().get(l, []):
+                            if d[2] == "assign":
+                                o = d[3]["rv"].get("op")
+                                if o and o["k"] in ("copy", "move"):
+                                    work.append(o["p"]["l"])
+                            elif d[2] == "call":
+                                for a_ in d[3]["args"]:
+                                    if a_["k"] in ("copy", "move"):
+                                        work.append(a_["p"]["l"])
+    if seeded:
+        run.ok(rule, "new_layout_cache: cached_lookups starts with one element")
+    else:
+        run.fail(rule, "cached-lookups-sentinel", "new_layout_cache no longer seeds cached_lookups with the empty list: index 0 (script/language not in the font) is out of bounds", "%s:%s" % (b.file, b.line))
+    # nothing but push/len/borrow/index touches cached_lookups
+    bad = []
+    for fb in fx.bodies:
+        prov2 = None
+        for bi, t in fb.calls():
+            p = t["callee"].get("path") or ""
+            if p.startswith("std::vec::Vec::<T, A>::") and p.split("::")[-1] in ("clear", "truncate", "pop", "remove", "swap_remove", "drain", "retain", "split_off", "dedup"):
+                if prov2 is None:
+                    prov2 = sym.Prov(fb)
+                if any(x[0] == "field" and x[2] == "cached_lookups" for x in sym.walk(prov2.op(t["args"][0]))):
+                    bad.append("%s in %s" % (p.split("::")[-1], fb.path))
+    if bad:
+        run.fail(rule, "cached-lookups-shrinks", "cached_lookups is shrunk: %s (cached indices would dangle)" % bad, "")
+    else:
+        run.ok(rule, "cached_lookups is never shrunk")
+
+
 def check(run, fx, tier, floors=True):
+    if floors or fx.body("layout::new_layout_cache") is not None:
+        c02_s(run, fx)
     recursion.run_rule(run, fx, "C01-a", lambda f: any(any(p.startswith(pre) for pre in ("gsub::", "gpos::", "glyph_position::", "layout::", "scripts::", "font::", "context::")) for p in f.local_paths),
                        floors_n=2 if floors else None)
     borrows.rule_borrows(run, fx, "C02-b", floors, floor_n=40)
